@@ -259,7 +259,7 @@ pub(crate) fn any_alpha_value() -> Alpha {
     }
 }
 pub(crate) fn any_place_mod() -> PlaceMod {
-    let pm = PlaceMod::new(kani::any(), kani::any(), kani::any(), kani::any());
+    let pm = PlaceMod { lab: kani::any(), cor: kani::any(), dor: kani::any(), phr: kani::any() };   // struct literal: does not depend on a helper constructor
     kani::assume(node_val_ok(NodeKind::Labial, pm.lab) && node_val_ok(NodeKind::Coronal, pm.cor) && node_val_ok(NodeKind::Dorsal, pm.dor) && node_val_ok(NodeKind::Pharyngeal, pm.phr));
     pm
 }
